@@ -54,7 +54,7 @@ def sh(cmd, cwd=None, timeout=None, env=None):
 
 def run_verus(image_path, workdir, seed=None, threads=None):
     cmd = ['verus', os.path.basename(image_path), '--triggers-mode', 'silent', '--output-json', '--time',
-           '--error-format=json', '--multiple-errors', '6', '--no-report-long-running', '-V', 'spinoff-all', '--rlimit', '50']
+           '--error-format=json', '--multiple-errors', '24', '--no-report-long-running', '-V', 'spinoff-all', '--rlimit', '50']
     if seed is not None:
         cmd += ['--smt-option', 'smt.random_seed=%d' % seed]
     if threads:
@@ -198,14 +198,25 @@ def build_fnkey_lookup(image_text, maps):
     return lookup
 
 
-def default_safety(fnkey, contracts):
-    """{'props': primaries, 'secondary': [...]} for a failure in `fnkey` that hits no labelled clause."""
+NEW_FN_CALLERS = {}
+
+
+def default_safety(fnkey, contracts, _depth=0):
+    """{'props': primaries, 'secondary': [...]} for a failure in `fnkey` that hits no labelled clause.  A function that
+    is new in this tree inherits the roles of the functions that call it."""
     c = contracts.get(fnkey)
     if c and c.get('safety'):
         return c['safety']
     for pat, props in DEFAULT_SAFETY:
         if re.search(pat, fnkey or ''):
             return props
+    if fnkey in NEW_FN_CALLERS and _depth < 3:
+        prim, sec = [], []
+        for caller in NEW_FN_CALLERS[fnkey]:
+            r = default_safety(caller, contracts, _depth + 1)
+            prim += [p for p in r['props'] if p not in prim]
+            sec += [p for p in r['secondary'] if p not in sec]
+        return {'props': prim, 'secondary': [p for p in sec if p not in prim]}
     return {'props': [], 'secondary': []}
 
 
@@ -440,13 +451,23 @@ def decide(props, a, seed, workdir, t0):
         vr = run_verus(ppath, os.path.dirname(ppath), None, 8)
         fails = classify(vr, maps, image_lines, lookup)
         mark_frontend(vr, fails)
+    NEW_FN_CALLERS.clear()
+    NEW_FN_CALLERS.update(maps.get('new_functions', {}))
     for k in maps.get('forced_external', []):
         lis = [i for i, l in enumerate(maps['labels']) if l['fn'] == k]
-        fails.append({'kind': 'verification', 'message': 'function body is outside what the Verus front end accepts; its contract is unverified',
-                      'labels': lis, 'fn': k, 'lines': [], 'rendered': 'unverified (forced external_body): %s' % k, 'unverified': True})
-        if not lis:
-            fails.append({'kind': 'verification', 'message': 'function body is outside what the Verus front end accepts', 'labels': [], 'fn': k,
-                          'lines': [], 'rendered': 'unverified (forced external_body): %s' % k, 'unverified': True})
+        if lis:
+            fails.append({'kind': 'verification', 'message': 'function body is outside what the Verus front end accepts; its contract is unverified',
+                          'labels': lis, 'fn': k, 'lines': [], 'rendered': 'unverified (forced external_body): %s' % k, 'unverified': True})
+        # its safety obligation (no overflow / index / callee precondition / termination) is unverified as well
+        fails.append({'kind': 'verification', 'message': 'function body is outside what the Verus front end accepts; its safety obligation is unverified',
+                      'labels': [], 'fn': k, 'lines': [], 'rendered': 'unverified (forced external_body): %s' % k, 'unverified': True})
+    # a failure reported on a spliced annotation line that carries no label (a closure contract that no longer fits the
+    # closure it was spliced onto, ...) says nothing about the code: the function is treated as degraded
+    for f in fails:
+        body_lines = [ln for ln in f['lines'] if ln - 1 < len(image_lines) and ln not in maps['linemap']]
+        prim_lines = [ln for ln in body_lines if re.search(r'//\s*@vf\s*$', image_lines[ln - 1])]
+        if f['kind'] == 'verification' and not f['labels'] and prim_lines and f['fn']:
+            maps.setdefault('lost_anchors', {}).setdefault(f['fn'], []).append('failure on an unlabelled spliced annotation line %s' % prim_lines[:2])
     if (skip_body or force_external or drop_statics) and cr is not None:
         # the canary image must be degraded the same way as the proof image; the canary guards the vacuity of the
         # CONTRACTS (which do not depend on the tree), so if it still cannot be built it is skipped for this run
@@ -580,6 +601,14 @@ def decide_one(p, a, seed, t0, vr, cr, seeds, kr, fails, maps, image, lookup, co
             violations.append(f)
         else:
             candidates.append(f)
+    for f in fails:
+        # a failure that no property claims (new function nobody calls, conversion impl, ...) must not end in OK
+        if f['kind'] == 'verification' and not f['labels'] and f['fn'] and not f.get('unverified'):
+            r = default_safety(f['fn'], contracts)
+            if not r['props'] and not r['secondary'] and not f['fn'].startswith('vf_'):
+                g = dict(f)
+                g['undecided'] = True
+                inconclusive.append(g)
     if candidates and not violations:
         # one witness search decides all secondary candidates of this property
         w = witness.search(p, [n for f in candidates for n in label_names(maps, f)], candidates[0], REPO)
@@ -684,7 +713,12 @@ def decide_one(p, a, seed, t0, vr, cr, seeds, kr, fails, maps, image, lookup, co
                 print('  also failing: kani:%s' % h['name'])
         rc = 1
     elif inconclusive or kani_inc or vac or (n_label_pre + len(my_fns) + len(kani_mine) == 0):
-        for f in inconclusive[:5]:
+        seen_msgs = set()
+        for f in inconclusive[:12]:
+            key = (tuple(label_names(maps, f)), f.get('message'))
+            if key in seen_msgs:
+                continue
+            seen_msgs.add(key)
             if f.get('undecided'):
                 print('INCONCLUSIVE: property=%s obligation %s failed (%s); this property is only possibly affected and the bounded witness search found no failing input for it' % (p, ','.join(label_names(maps, f)), f['message']))
             else:
